@@ -221,6 +221,10 @@ structure Facts06 where
   /-- the simple type of a customised `XmlData` member is defined in the published documents
       (otherwise the simpleContent extension names a type no document defines) -/
   dataTypeDefined : Bool
+  /-- `XmlDocument.serialize` names a response that is not wrapped (`_body_style='bare'` / `'out_bare'`)
+      after the `sub_name` of the out message — the name of the element the schema declares for it —
+      (otherwise after the type name of the out message: `<tns:integer>` for `_returns=Integer`) -/
+  bareRootIsSubName : Bool
 
 /-! ## Generation -/
 
